@@ -261,6 +261,9 @@ def check_history(ctx: Ctx, hist: dict, model_out: str | None, enc) -> None:
                                    "mtimes": {p: f["mtime"] for p, f in s["files"].items()}} for s in hist["steps"][:k + 1]]}
             if B.only_once_note_diff(d):
                 ctx.report({"class": "only-once-note-moves"}, f"warm run differs from cold run only in an only_once note ({cfg}, step {k})", replay)
+            elif B.import_error_order_diff(cw, cc, d):
+                ctx.report({"class": "import-errors-of-one-line-reordered"},
+                           f"warm run reports the missing-module errors of one import statement in another order than the cold run ({cfg}, step {k})", replay)
             else:
                 obs = {"class": "warm-differs-from-cold", "config": cfg}
                 if hist.get("raw"):
